@@ -2414,9 +2414,6 @@ def BHJM_cylinder_segment(
     #   1. inside and not_on_surface are not the same! Cant just put to true.
 
     # return 0 when all points are on surface
-    if not np.any(mask_not_on_surf):
-        return BHJM * 0
-
     if field == "J":
         BHJM[~mask_inside] = 0
         return BHJM
@@ -2424,6 +2421,10 @@ def BHJM_cylinder_segment(
     if field == "M":
         BHJM[~mask_inside] = 0
         return BHJM / MU0
+
+    # B and H are set to 0 on the surface
+    if not np.any(mask_not_on_surf):
+        return BHJM * 0
 
     BHJM *= 0
 
